@@ -1,6 +1,7 @@
 package main
 
 import (
+	"runtime/pprof"
 	"fmt"
 	"runtime/debug"
 	"os"
@@ -9,17 +10,23 @@ import (
 )
 
 func main() {
+	if pf := os.Getenv("GOVC_PROF"); pf != "" {
+		if f, err := os.Create(pf); err == nil {
+			pprof.StartCPUProfile(f)
+			defer pprof.StopCPUProfile()
+		}
+	}
 	debug.SetGCPercent(600) // the term tables are long-lived; frequent collection dominated run time
 	if len(os.Args) < 2 {
 		fmt.Fprintln(os.Stderr, "usage: govc ssa <func>... | check <Cxx> [--tier quick|thorough] | replay <path>")
-		os.Exit(2)
+		exitProf(2)
 	}
 	switch os.Args[1] {
 	case "ssa":
 		P, err := loadProgram("verif")
 		if err != nil {
 			fmt.Fprintln(os.Stderr, err)
-			os.Exit(2)
+			exitProf(2)
 		}
 		for _, name := range os.Args[2:] {
 			fn := P.Funcs[name]
@@ -40,19 +47,19 @@ func main() {
 		initWorkDir()
 		rc := cmdVerify(os.Args[2:])
 		cleanupWorkDir()
-		os.Exit(rc)
+		exitProf(rc)
 	case "check":
 		initWorkDir()
 		rc := cmdCheck(os.Args[2:])
 		cleanupWorkDir()
-		os.Exit(rc)
+		exitProf(rc)
 	case "replay":
-		os.Exit(cmdReplay(os.Args[2:]))
+		exitProf(cmdReplay(os.Args[2:]))
 	case "globals":
 		P, err := loadProgram("verif")
 		if err != nil {
 			fmt.Fprintln(os.Stderr, err)
-			os.Exit(2)
+			exitProf(2)
 		}
 		gi := buildGlobalIndex(P)
 		for g, info := range gi.info {
@@ -63,9 +70,14 @@ func main() {
 			}
 		}
 	case "loops":
-		os.Exit(cmdLoops(os.Args[2:]))
+		exitProf(cmdLoops(os.Args[2:]))
 	default:
 		fmt.Fprintln(os.Stderr, "unknown command")
-		os.Exit(2)
+		exitProf(2)
 	}
+}
+
+func exitProf(rc int) {
+	pprof.StopCPUProfile()
+	os.Exit(rc)
 }
